@@ -206,6 +206,8 @@ func subjects() []subject {
 			{"Get", func(_ context.Context, o any) { _ = o.(*adt.Atomic[int]).Get() }},
 			{"Swap", func(_ context.Context, o any) { _ = o.(*adt.Atomic[int]).Swap(3) }},
 			{"CompareAndSwap", func(_ context.Context, o any) { _ = adt.CompareAndSwap[int](o.(*adt.Atomic[int]), 1, 4) }},
+			{"adt.Reset", func(_ context.Context, o any) { _ = adt.Reset[int](o.(*adt.Atomic[int])) }},
+			{"adt.SafeSet", func(_ context.Context, o any) { adt.SafeSet[int](o.(*adt.Atomic[int]), 6) }},
 		}},
 		{"adt.Synchronized", []string{"fresh"}, func(pre string) any { return adt.NewSynchronized(1) }, []op{
 			{"Set", func(_ context.Context, o any) { o.(*adt.Synchronized[int]).Set(2) }},
@@ -213,6 +215,10 @@ func subjects() []subject {
 			{"Swap", func(_ context.Context, o any) { _ = o.(*adt.Synchronized[int]).Swap(3) }},
 			{"With", func(_ context.Context, o any) { o.(*adt.Synchronized[int]).With(func(int) {}) }},
 			{"String", func(_ context.Context, o any) { _ = o.(*adt.Synchronized[int]).String() }},
+			{"adt.CompareAndSwap(miss)", func(_ context.Context, o any) { _ = adt.CompareAndSwap[int](o.(*adt.Synchronized[int]), 7, 8) }},
+			{"adt.CompareAndSwap(hit)", func(_ context.Context, o any) { _ = adt.CompareAndSwap[int](o.(*adt.Synchronized[int]), 1, 5) }},
+			{"adt.Reset", func(_ context.Context, o any) { _ = adt.Reset[int](o.(*adt.Synchronized[int])) }},
+			{"adt.SafeSet", func(_ context.Context, o any) { adt.SafeSet[int](o.(*adt.Synchronized[int]), 6) }},
 		}},
 		// the callback of With / Using runs under the object's lock: two callbacks that
 		// mutate what the protected value refers to never overlap
